@@ -35,6 +35,8 @@ TRUSTED = ["Coq 8.16.1 kernel (coqc); no axioms (Print Assumptions: closed under
            "extraction: ExtrOcamlBasic + ExtrOcamlNativeString; ocaml/sx.ml + ocaml/driver_sugar.ml",
            "harness/bridge.py ast<->expr encoding (obj_kind gives the field names from the same two sources the code "
            "reads: inspect.signature parameters for dataclasses, _fields for NamedTuples)",
+           "the meaning given to comprehensions by Base/Eval.v is itself compared with CPython on every evaluable case "
+           "of the run (extracted eval vs CPython on the original tree, and eval of the model's lowered tree)",
            "harness/props/c06.py generators/oracles; harness/props/sugar_pyref.py (CPython eval of the original, "
            "own tree-walking interpreter for the lowered query)"]
 ASSUME = ["ops contains \"Select\" and \"Where\" (the lowering emits method-form calls; hypothesis of sugar_sem)",
@@ -377,14 +379,20 @@ def malformed_cases(r, budget):
     def all_gens(e):
         return [n for n in ast.walk(e) if isinstance(n, (ast.ListComp, ast.GeneratorExp))]
 
+    def clause(g):
+        c = g.generators[0]
+        if not isinstance(c, ast.comprehension):     # never decorate a non-clause node with stray attributes
+            raise TypeError
+        return c
+
     muts = []
-    muts.append(lambda g: setattr(g.generators[0], "target", gen.tup(N("a"), N("b"))))
-    muts.append(lambda g: setattr(g.generators[0], "target", A(N("a"), "b")))
-    muts.append(lambda g: setattr(g.generators[0], "target", gen.sub(N("a"), C(0))))
-    muts.append(lambda g: setattr(g.generators[0], "target", ast.Starred(value=N("a"), ctx=ast.Store())))
-    muts.append(lambda g: setattr(g.generators[0], "target", C(1)))
-    muts.append(lambda g: setattr(g.generators[0], "target", ast.ListComp(elt=N("u"), generators=[ast.comprehension(target=N("u"), iter=N("ys"), ifs=[], is_async=0)])))
-    muts.append(lambda g: setattr(g.generators[0], "is_async", 1))
+    muts.append(lambda g: setattr(clause(g), "target", gen.tup(N("a"), N("b"))))
+    muts.append(lambda g: setattr(clause(g), "target", A(N("a"), "b")))
+    muts.append(lambda g: setattr(clause(g), "target", gen.sub(N("a"), C(0))))
+    muts.append(lambda g: setattr(clause(g), "target", ast.Starred(value=N("a"), ctx=ast.Store())))
+    muts.append(lambda g: setattr(clause(g), "target", C(1)))
+    muts.append(lambda g: setattr(clause(g), "target", ast.ListComp(elt=N("u"), generators=[ast.comprehension(target=N("u"), iter=N("ys"), ifs=[], is_async=0)])))
+    muts.append(lambda g: setattr(clause(g), "is_async", 1))
     muts.append(lambda g: setattr(g, "generators", []))
     muts.append(lambda g: g.generators.append(ast.comprehension(target=N("m"), iter=N("ys"), ifs=[gen.cmp(ast.Gt, N("m"), C(1))], is_async=0)))
     muts.append(lambda g: g.generators.insert(0, ast.comprehension(target=N("m"), iter=N("zs"), ifs=[], is_async=0)))
@@ -396,8 +404,8 @@ def malformed_cases(r, budget):
     muts.append(lambda g: g.generators.insert(0, 7))
     muts.append(lambda g: g.generators.append(fcall("f", N("a"))))
     muts.append(lambda g: setattr(g, "elt", 5))
-    muts.append(lambda g: setattr(g.generators[0], "iter", "raw"))
-    muts.append(lambda g: g.generators[0].ifs.append(None))
+    muts.append(lambda g: setattr(clause(g), "iter", "raw"))
+    muts.append(lambda g: clause(g).ifs.append(None))
     muts.append(lambda g: setattr(g, "elt", ast.Call(func=C(DC2), args=[C(1), C(2), C(3)], keywords=[])))
     muts.append(lambda g: setattr(g, "elt", ast.Call(func=C(DC2), args=[N("a")], keywords=[ast.keyword(arg="q", value=C(1))])))
     n = 0
@@ -577,19 +585,24 @@ def oracle_bind(e: ast.Call, res):
     return None
 
 
+SEM_CACHE = []      # (case, dataset index, CPython value or None when CPython raises)
+
+
 def oracle_sem(ctx, e, res):
     """CPython on the original vs the reference interpreter on the lowered query."""
     st, out = res
     if st != "ok":
         return None
     n_eval = 0
-    for d in DATASETS:
+    for di, d in enumerate(DATASETS):
         env = dataset_env(d)
         try:
             want = ref.norm(ref.cpython_eval(e, env))
-        except Exception:  # noqa   one-directional: only when the original evaluates
+        except Exception as ex:  # noqa   one-directional: only when the original evaluates
             ctx.count("semantic", "original raises")
+            SEM_CACHE.append((e, di, ("raise", type(ex).__name__)))
             continue
+        SEM_CACHE.append((e, di, ("v", want)))
         n_eval += 1
         try:
             got = ref.norm(ref.lowered_eval(out, dataset_env(d)))
@@ -699,6 +712,82 @@ def spec_vs_python(ctx, calls):
                      {"correspondence": "dataclass_binds", "expr_dump": enc(e), "tag": "dcall"}, key=_key(e) + "t")
 
 
+def val_sx(v) -> str:
+    if v is None:
+        return "N"
+    if isinstance(v, bool):
+        return "(B %d)" % (1 if v else 0)
+    if isinstance(v, int):
+        return "(I %d)" % v
+    if isinstance(v, str):
+        return "(S %s)" % bridge.hx(v)
+    if isinstance(v, list):
+        return "(L" + "".join(" " + val_sx(x) for x in v) + ")"
+    raise TypeError(v)
+
+
+def val_py(x):
+    """Coq value (parsed S-expression) in the comparable form of sugar_pyref.norm."""
+    if x == "N":
+        return None
+    tag = x[0]
+    if tag == "I":
+        return int(x[1])
+    if tag == "B":
+        return x[1] == "1"
+    if tag == "S":
+        return bridge.unhx(x[1])
+    if tag == "L":
+        return [val_py(y) for y in x[1:]]
+    if tag == "T":
+        return ("tuple", [val_py(y) for y in x[1:]])
+    return ("unsupported", tag)
+
+
+def eval_crosscheck(ctx):
+    """Three-way agreement on the evaluable cases: the reference semantics the theorems are stated in
+    (Base/Eval.v, extracted) against CPython on the original tree, and the extracted model's lowered
+    tree under the same semantics (what sugar_sem proves)."""
+    if not SEM_CACHE:
+        return
+    envs = ["(" + " ".join("(%s %s)" % (bridge.hx(k), val_sx(v)) for k, v in d.items()) + ")" for d in DATASETS]
+    sxs = {}
+    rows = []
+    for e, di, want in SEM_CACHE:
+        if id(e) not in sxs:
+            sxs[id(e)] = bridge.to_sx(e)
+        rows.append([sxs[id(e)], envs[di]])
+    a1 = ctx.driver.call("eval", rows)
+    a2 = ctx.driver.call("evallow", rows)
+    for (e, di, want), orig, low in zip(SEM_CACHE, a1, a2):
+        ctx.evaluations += 1
+        if orig.startswith("OK "):
+            v = val_py(bridge.parse_sx(orig[3:]))
+            if want[0] == "raise" and want[1] == "UnboundLocalError":
+                # CPython >= 3.12 inlines comprehensions (PEP 709): a name that is a comprehension target *and* is read
+                # from the enclosing/global scope inside the same lambda becomes an unbound local of the lambda in some
+                # nestings.  An artefact of that implementation, not of the language the property speaks about.
+                ctx.count("coq_eval", "CPython raises UnboundLocalError (PEP 709 inlining corner), Eval.v gives the global")
+                continue
+            if want[0] == "raise" or not (ref.rec_leq(v, want[1]) and ref.rec_leq(want[1], v)):
+                ctx.fail("no-failing-input-found",
+                         "reference semantics Base/Eval.v (extracted) disagrees with CPython on %s over %r: eval %r, CPython %s"
+                         % (bridge.dump(e)[:200], DATASETS[di], v, "raises " + want[1] if want[0] == "raise" else repr(want[1])),
+                         {"correspondence": "eval", "expr_dump": enc(e), "dataset": di, "tag": "sem"}, key=_key(e) + "e")
+                ctx.count("coq_eval", "DISAGREES with CPython")
+                continue
+            ctx.count("coq_eval", "agrees with CPython")
+            if low != orig:
+                ctx.fail("no-failing-input-found",
+                         "extracted model contradicts theorem sugar_sem on %s over %r: eval(original) = %s, eval(sugar original) = %s"
+                         % (bridge.dump(e)[:200], DATASETS[di], orig[:80], low[:80]),
+                         {"correspondence": "sugar_sem", "expr_dump": enc(e), "dataset": di, "tag": "sem"}, key=_key(e) + "l")
+        else:
+            ctx.count("coq_eval", "no value in Eval.v, CPython raises too" if want[0] == "raise"
+                      else "no value in Eval.v (outside its fragment), CPython evaluates")
+    del SEM_CACHE[:]
+
+
 def run(ctx):
     cs = cases(ctx)
     sx = [bridge.to_sx(e) for _, e in cs]
@@ -711,6 +800,7 @@ def run(ctx):
             ctx.distinct.add(ast.dump(e))
         check_case(ctx, tag, e, ans, pa, pr)
     spec_vs_python(ctx, [e for tag, e in cs if tag == "dcall"])
+    eval_crosscheck(ctx)
     for i in (4, 60, 900, 3000, len(cs) - 5):
         if 0 <= i < len(cs):
             tag, e = cs[i]
@@ -728,3 +818,4 @@ def replay(ctx, w):
     check_case(ctx, w.get("tag", "random"), e, ans, pa, pr)
     if w.get("tag") == "dcall" and isinstance(e, ast.Call):
         spec_vs_python(ctx, [e])
+    eval_crosscheck(ctx)
